@@ -94,6 +94,26 @@ func (s *shrinker) pass() bool {
 				continue
 			}
 		}
+		// 1b. delete whole fixed-width records (one operation each), last first
+		if w := recWidth(name); w > 0 {
+			for i := (len(s.best[name]) - 1) / w * w; i >= 0; i -= w {
+				if i >= len(s.best[name]) {
+					continue
+				}
+				c := cloneTape(s.best)
+				end := i + w
+				if end > len(c[name]) {
+					end = len(c[name])
+				}
+				c[name] = append(c[name][:i:i], c[name][end:]...)
+				if s.try(c) {
+					improved = true
+				}
+				if s.execs >= s.budget {
+					return improved
+				}
+			}
+		}
 		// 2. truncate tail (binary)
 		for cut := len(s.best[name]) / 2; cut >= 1; cut /= 2 {
 			for len(s.best[name]) >= cut {
@@ -202,6 +222,16 @@ func cmdShrink(args []string) int {
 	if err := os.WriteFile(*out, ob, 0666); err != nil {
 		fmt.Fprintln(os.Stderr, err)
 		return 2
+	}
+	return 0
+}
+
+// recWidth: program streams are laid out in fixed-width records (see record()).
+var recWidths = map[string]int{}
+
+func recWidth(stream string) int {
+	if strings.HasPrefix(stream, "prog") {
+		return recWidths["prog"]
 	}
 	return 0
 }
